@@ -196,8 +196,14 @@ def gen_scenario(rng, prof=None, force_selflock=None):
     p = dict(DEFAULT_PROFILE)
     p.update(prof or {})
     spec = {'motor': gen_motor(rng, p)}
+    all_int_J = rng.random() < p.get('p_int_inertias', 0.08)
     for _ in range(20):
         spec['chain'] = gen_chain(rng, p, force_selflock)
+        if all_int_J:
+            # every inertia written as a python int in one small unit (a parts list in g*cm^2)
+            ju = rng.choice(['gcm^2', 'gcm^2', 'gm^2', 'kgcm^2'])
+            for e_ in [spec['motor']] + spec['chain']:
+                e_['J'] = Q('InertiaMoment', max(1, int(round(qsi(e_['J']) / SI.FACT['InertiaMoment'][ju]))), ju)
         nums = chain_numbers(spec)
         if nums['E'] > 1e-9 and 1e-12 < nums['J_eq'] < 1e6:
             break
@@ -254,6 +260,8 @@ def gen_scenario(rng, prof=None, force_selflock=None):
     spec['ic'] = {'pos': pos, 'speed': spd, 'pwm': pwm}
     spec['rules'] = []
     spec['stop'] = None
+    spec['prior_design'] = rng.randrange(1 << 30) if rng.random() < 0.3 else None     # relations declared differently first (sim/build.py prior_design)
+    spec['touch_constants'] = rng.randrange(1 << 30) if rng.random() < p.get('p_touch_constants', 0.15) else None   # constants converted in place after assembly (sim/build.py)
     spec['order'] = rng.randrange(24)          # which of the legal orders of public calls the driver uses (see sim/build.py)
     sched = [{'op': 'run', 'dt': dt, 'T': mulq(dt, n)}]
     if rng.random() < p.get('p_nonmultiple_T', 0.0):
@@ -268,6 +276,12 @@ def gen_scenario(rng, prof=None, force_selflock=None):
             sched.append({'op': 'run', 'dt': dt2, 'T': mulq(dt2, rng.randint(3, max(4, n // 2)))})
     if rng.random() < p['p_reset']:
         sched += [{'op': 'reset'}, {'op': 'reapply'}]
+        if rng.random() < p.get('p_setload', 0.4):
+            # another load function for the second history (same solver or a new one)
+            l2 = dict(load)
+            l2['A'] = sig(load['A'] * rng.choice([-1, 0.3, 2.5]) + rng.choice([0, 0.2]) * T_out, 4)
+            l2['unit'] = rng.choice(SI.units('Torque'))
+            sched.append({'op': 'setload', 'load': l2})
         if rng.random() < 0.5:
             sched.append({'op': 'newsolver'})
         sched.append({'op': 'run', 'dt': dt, 'T': mulq(dt, rng.randint(3, n))})
